@@ -199,7 +199,7 @@ DfOK       == rS = samp /\ rN = nfft
 FlagSound  == (cache.valid /\ cache.stale) => modified
 
 \* refinement: every step of the mechanism is a step (or a stutter) of the envelope
-AbsOps == {<<"SetData", [data |-> d, N |-> DataN[d]]>> : d \in 1..Len(DataN)}
+AbsOps == {<<"SetData", [data |-> d, N |-> DataN[d], dt |-> DT]>> : d \in 1..Len(DataN)}
           \cup {<<"SetNFFT", x>> : x \in NfftArgs}
           \cup {<<"SetSampling", v>> : v \in Samplings}
           \cup {<<"SetSides", s>> : s \in Allowed(DT) \cup {"default"}}
